@@ -9,6 +9,7 @@ import (
 	"time"
 
 	sdk "github.com/cosmos/cosmos-sdk/types"
+	"github.com/cosmos/cosmos-sdk/types/bech32"
 	sdkerrors "github.com/cosmos/cosmos-sdk/types/errors"
 	authtypes "github.com/cosmos/cosmos-sdk/x/auth/types"
 	banktypes "github.com/cosmos/cosmos-sdk/x/bank/types"
@@ -260,6 +261,11 @@ func (y *c12L2Sys) Root() *c12L2State {
 			panic(err)
 		}
 	}
+	// one deposit is already processed, so that a replay of a stale sequence can be offered by every signer
+	first, _, _ := c06Msg(1, "e1", 0)
+	if r := w.Deliver(w.Ctx, first); !r.OK() {
+		panic(r.Err)
+	}
 	return &c12L2State{ctx: w.Ctx, w: w, admin: "admin", execs: []string{"e1"}}
 }
 
@@ -300,8 +306,19 @@ func (y *c12L2Sys) Letters(s *c12L2State) []engine.Letter {
 	return ls
 }
 
+// l1Addr spells an account the way the L1 chain does: with L1's own bech32 prefix, which the L2's
+// address codec cannot decode (the bridge config an L2 stores is about L1 accounts).
+func l1Addr(name string) string {
+	a, err := bech32.ConvertAndEncode("init", world.Addr(name))
+	if err != nil {
+		panic(err)
+	}
+	return a
+}
+
 func c12Info(client string) opchildtypes.BridgeInfo {
 	cfg := world.BridgeConfig("proposer", "challenger", 10*time.Second)
+	cfg.Proposer, cfg.Challenger, cfg.BatchInfo.Submitter = l1Addr("proposer"), l1Addr("challenger"), l1Addr("submitter")
 	cfg.OracleEnabled = true
 	return opchildtypes.BridgeInfo{BridgeId: 1, BridgeAddr: sdk.AccAddress(ophosttypes.BridgeAddress(1)).String(), L1ChainId: "l1-verif", L1ClientId: client, BridgeConfig: cfg}
 }
@@ -459,6 +476,9 @@ func (y *c12L2Sys) Check(s *c12L2State) *engine.Violation {
 		dep, _, _ := c06Msg(1, "e1", 0)
 		dep.Sender = a
 		dep.Sequence = next
+		stale, _, _ := c06Msg(1, "e1", 0)
+		stale.Sender = a
+		stale.Sequence = next - 1 // already processed: a no-op for an executor, still unauthorised for anyone else
 		for _, q := range []c12Pr{
 			{"ExecuteMessages", em, isAdmin, false},
 			{"AddValidator", addv, isAuth, false},
@@ -467,6 +487,7 @@ func (y *c12L2Sys) Check(s *c12L2State) *engine.Violation {
 			{"SpendFeePool", &opchildtypes.MsgSpendFeePool{Authority: a, Recipient: s.addr("stranger"), Amount: sdk.NewCoins(sdk.NewInt64Coin("umin", 1))}, isAuth, false},
 			{"SetBridgeInfo", opchildtypes.NewMsgSetBridgeInfo(a, info), isExec, false},
 			{"FinalizeTokenDeposit", dep, isExec, false},
+			{"FinalizeTokenDeposit(stale sequence)", stale, isExec, false},
 			y.oracleProbe(s, a, isExec),
 		} {
 			if v := run(fmt.Sprintf("%s(by=%s)", q.n, sg), q.m, sg, q.ok, q.cls); v != nil {
